@@ -357,13 +357,11 @@ private:
 
         auto keyed_position = m_keyed_elements.emplace(key, element_idx).first;
 
-        m_ttl_list.emplace_back(element_idx);
-
         element& e         = m_elements[element_idx];
         e.m_value          = std::move(value);
         e.m_expire_time    = expire_time;
         e.m_lru_position   = m_lru_end;
-        e.m_ttl_position   = std::prev(m_ttl_list.end());
+        e.m_ttl_position   = m_ttl_list.emplace(do_ttl_position(expire_time), element_idx);
         e.m_keyed_position = keyed_position;
 
         ++m_lru_end;
@@ -378,14 +376,27 @@ private:
     {
         size_t element_idx = keyed_position->second;
 
-        element& e      = m_elements[element_idx];
+        element& e = m_elements[element_idx];
+
+        // re-file in the ttl list at its new expire time (before the stored expire time changes)
+        m_ttl_list.splice(do_ttl_position(expire_time), m_ttl_list, e.m_ttl_position);
+
         e.m_expire_time = expire_time;
         e.m_value       = std::move(value);
 
-        // push to the end of the ttl list
-        m_ttl_list.splice(m_ttl_list.end(), m_ttl_list, e.m_ttl_position);
-
         do_access(e);
+    }
+
+    /// The ttl list is sorted by expire time, but update_ttl() can shorten the ttl so a new expire
+    /// time does not always belong at the end.  Walks from the tail: O(1) while the ttl is unchanged.
+    auto do_ttl_position(std::chrono::steady_clock::time_point expire_time) -> std::list<size_t>::iterator
+    {
+        auto position = m_ttl_list.end();
+        while (position != m_ttl_list.begin() && m_elements[*std::prev(position)].m_expire_time > expire_time)
+        {
+            --position;
+        }
+        return position;
     }
 
     auto do_erase(size_t element_idx) -> void
